@@ -227,8 +227,8 @@ pub fn run(ctx: &Ctx) -> Report {
         "every leaf of the serde tree of each honest proof (configuration numbers, public-input fields incl. every main-page cell \
          and dynamic parameter, commitments, out-of-domain values, FRI commitments / coefficients, nonce, decommitted cells, \
          authentication nodes, FRI witness leaves) x mutation menu {+1, 0/1, one bit flip, value of the next vector element, p-1; \
-         wrapped analogues for u8/u64} and deletion of every single element of every vector: exactly one deviation, the mutant \
-         must not be accepted at the honest proof's own security level. Non-trivial: mutant differs from the original as a typed \
+         wrapped analogues for u8/u64} and deletion of every single element of every vector: exactly one deviation (quick: full sweep on the recursive proofs, one representative per position class on the \
+         other layouts' proofs), the mutant must not be accepted at the honest proof's own security level. Non-trivial: mutant differs from the original as a typed \
          value; distinct by (proof, position, mutation)",
     );
     rep.trust("serde_json round trip of StarkProof (checked: every base re-typed from JSON is accepted)");
@@ -272,6 +272,60 @@ pub fn run(ctx: &Ctx) -> Report {
                     rep.eval(&class);
                     rep.nontrivial_case(&format!("{}|{}|{}", b.name, jw::path_str(path), m.name()));
                     rep.sample(&format!("{}:{}", class, jw::path_class(path).len() % 7), json!({"proof": b.name, "position": jw::path_str(path), "mutation": m.name(), "observed": v.class()}));
+                    if v.accepted() {
+                        rep.violation(&format!("tamper-accepted:{}:{}", jw::path_class(path), m.kind()),
+                            &format!("{}: {} at {} is still accepted", b.name, m.name(), jw::path_str(path)),
+                            json!({"kind": "tamper", "proof": b.name, "path": jw::path_str(path), "mutation": m.name()}));
+                    }
+                }
+            }
+        }
+    }
+    // quick tier: the other layouts of this build get one representative per POSITION CLASS (first and
+    // last position of every class: +1, and deletion of the first / last element of every vector), so
+    // that per-layout code (traces_decommit, public-input checks: seven copies) is exercised too
+    if quick {
+        let done: Vec<String> = bs.iter().map(|b| b.name.clone()).collect();
+        let others: Vec<Base> = bases(ctx, true).into_iter().filter(|b| !done.contains(&b.name)).collect();
+        for b in &others {
+            let honest = proof_from_value(&b.value).map(|p| verify(&p, &b.layout));
+            if !matches!(honest, Some(ref v) if v.accepted()) {
+                rep.machinery(&format!("C02: base proof {} is not accepted on its native build", b.name));
+                continue;
+            }
+            rep.eval("honest:ok");
+            let mut first_last: std::collections::BTreeMap<String, (jw::Path, jw::Path)> = std::collections::BTreeMap::new();
+            for l in jw::leaves(&b.value) {
+                let c = jw::path_class(&l);
+                first_last.entry(c).and_modify(|e| e.1 = l.clone()).or_insert((l.clone(), l));
+            }
+            let mut cs: Vec<(jw::Path, Mutn)> = Vec::new();
+            for (_, (a, z)) in first_last {
+                cs.push((a.clone(), Mutn::Plus1));
+                if z != a {
+                    cs.push((z, Mutn::Plus1));
+                }
+            }
+            for arr in jw::arrays(&b.value) {
+                let n = jw::get(&b.value, &arr).unwrap().as_array().unwrap().len();
+                for i in [0usize, n.saturating_sub(1)] {
+                    if i < n {
+                        let mut p = arr.clone();
+                        p.push(jw::Seg::Idx(i));
+                        cs.push((p, Mutn::Delete));
+                    }
+                }
+            }
+            cs.dedup_by(|x, y| x.0 == y.0 && x.1.name() == y.1.name());
+            names.push(json!({"proof": b.name, "representatives": cs.len()}));
+            let results: Vec<Option<crate::kit::panics::Verdict>> = cs
+                .par_iter()
+                .map(|(path, m)| apply(&b.value, path, m).and_then(|mv| proof_from_value(&mv)).map(|p| verify(&p, &b.layout)))
+                .collect();
+            for ((path, m), v) in cs.iter().zip(results) {
+                if let Some(v) = v {
+                    rep.eval(&format!("rep:{}:{}", m.kind(), v.short()));
+                    rep.nontrivial_case(&format!("{}|{}|{}", b.name, jw::path_str(path), m.name()));
                     if v.accepted() {
                         rep.violation(&format!("tamper-accepted:{}:{}", jw::path_class(path), m.kind()),
                             &format!("{}: {} at {} is still accepted", b.name, m.name(), jw::path_str(path)),
